@@ -62,8 +62,8 @@ class World:
             self.pool.append(new)
 
 
-def histories(depth):
-    """All sequences of (event, target index) with valid targets."""
+def histories(depth, npool0=1):
+    """All sequences of (event, target index) with valid targets, starting with npool0 builders."""
     def rec(prefix, npool):
         yield prefix
         if len(prefix) == depth:
@@ -72,7 +72,7 @@ def histories(depth):
             for i in range(npool):
                 grow = ev[0] != "build" and npool < POOL_MAX
                 yield from rec(prefix + ((ev, i),), npool + (1 if grow else 0))
-    return rec((), 1)
+    return rec((), npool0)
 
 
 def _job(prefix_depth):
@@ -80,7 +80,7 @@ def _job(prefix_depth):
     found = {}
     n = trans = 0
     states = set()
-    for h in histories(depth - 1):
+    for h in histories(depth - 1, 2 if first[0][0] != "build" else 1):
         hist = (first,) + h
         if len(hist) < 1:
             continue
@@ -95,6 +95,19 @@ def _job(prefix_depth):
         n += 1
         trans += 1
         states.add(tuple(after))
+        # observing a builder BUILDS it, and the observations above are taken in pool order: to see an effect that an
+        # observation of an earlier builder would itself have caused, every builder is also compared across two fresh
+        # worlds in which it is the ONLY builder ever observed (history without / with the last event)
+        for idx in range(len(before)):
+            w1, w2 = World(), World()
+            for e, j in hist[:-1]:
+                w1.apply(e, j)
+            for e, j in hist[:-1]:
+                w2.apply(e, j)
+            w2.apply(ev, i)
+            o1, o2 = w1.observe(w1.pool[idx]), w2.observe(w2.pool[idx])
+            if o1 != o2 and before[idx] == after[idx]:
+                before[idx], after[idx] = o1, o2
         for idx, (b, a) in enumerate(zip(before, after)):
             if b != a:
                 what = [name for name, x, y in zip(("build-kwargs", "name", "build_dir", "verbose", "custom_args", "fields"), b, a) if x != y]
@@ -131,4 +144,14 @@ def replay(ctx, item):
     w.apply(*hist[-1])
     after = [w.observe(b) for b in w.pool]
     bad = [i for i, (b, a) in enumerate(zip(before, after)) if b != a]
-    return {"violation": bool(bad), "changed_builders": bad}
+    # ... and with the one builder as the only one ever observed (see _job)
+    solo = []
+    for idx in range(len(before)):
+        w1, w2 = World(), World()
+        for ev, i in hist[:-1]:
+            w1.apply(ev, i)
+            w2.apply(ev, i)
+        w2.apply(*hist[-1])
+        if w1.observe(w1.pool[idx]) != w2.observe(w2.pool[idx]):
+            solo.append(idx)
+    return {"violation": bool(bad or solo), "changed_builders": bad, "changed_builders_observed_alone": solo}
